@@ -213,6 +213,9 @@ def main(argv=None):
         sys.path.insert(0, root)
         os.environ["PYTHONPATH"] = root + os.pathsep + VERIF
         os.environ["JELLYFYSH_VERIF"] = "1"
+        import logging, warnings
+        logging.disable(logging.CRITICAL)
+        warnings.simplefilter("ignore")
         import jellyfysh
         assert os.path.realpath(jellyfysh.__file__).startswith(os.path.realpath(root)), jellyfysh.__file__
         ctx = Ctx(pid, a.tier, seed, root)
